@@ -138,7 +138,24 @@ def snapshot_params(m):
 
 def trace_run(cfg, ledger=True, max_steps=None, stepper=None):
     """returns dict: init (params snapshot), days (list of per-step dicts), tables, model; raises what the model raises"""
-    m = sim.build_model(cfg)
+    if cfg.get("reuse_model"):
+        # HISTORY: the model object ran before over the same window with ANOTHER weather table; the user then assigns the table
+        # of this configuration (weather_df setter) and runs again - every property must hold for that run exactly as for a
+        # fresh model (the run re-initialises)
+        objs = sim.build_objects(cfg)
+        w_real = objs["weather_df"]
+        wp = w_real.copy()
+        wp["Precipitation"] = np.roll(wp["Precipitation"].values, 53) * 0.6 + 0.7
+        wp["ReferenceET"] = np.maximum(wp["ReferenceET"].values * 1.15, 0.1)
+        objs["weather_df"] = wp
+        m = sim.AquaCropModel(**objs)
+        try:
+            m.run_model(till_termination=True)
+        except Exception:
+            pass
+        m.weather_df = w_real
+    else:
+        m = sim.build_model(cfg)
     m._initialize()
     init = snapshot_params(m)
     init["th0"] = np.array(m._init_cond.th, dtype=float)
